@@ -30,6 +30,7 @@ def int_of(repr):
 
 
 def disc_patterns(v, repr, all_unit):
+    # (patterns are written for v <= 3 and extended by implicit continuation for larger v)
     """explicit discriminant lists (None = implicit) legal for this enum"""
     it = int_of(repr)
     out = [[None] * v]
@@ -60,6 +61,7 @@ def disc_patterns(v, repr, all_unit):
         cands.append([None, 200 if hi >= 200 else 100, None])
     seen = set()
     for c in cands:
+        c = (list(c) + [None] * v)[:v]
         vals = resolve(c)
         if len(set(vals)) != len(vals) or min(vals) < lo or max(vals) > hi:
             continue
@@ -191,6 +193,19 @@ def generate(tier):
             for discs in (pats if tier != 'quick' else pats[:1] + pats[-1:]):
                 k += 1
                 cases.append(build(list(combo), repr, discs, cfgs[k % 4]))
+    # E: four and five variants
+    for v in (4, 5):
+        for repr in (None, 'u8', 'i8', 'isize', 'C'):
+            for discs in disc_patterns(v, repr, True):
+                k += 1
+                cases.append(build([('u', [])] * v, repr, discs, cfgs[k % 4]))
+        mixed = [('u', []), ('t', ['bool']), ('n', ['u8']), ('t', ['ref']), ('u', [])][:v]
+        for rot in range(v):
+            vs = mixed[rot:] + mixed[:rot]
+            for repr in (None, 'u8', 'i16'):
+                for discs in disc_patterns(v, repr, False)[:4]:
+                    k += 1
+                    cases.append(build(vs, repr, discs, cfgs[k % 4]))
     seen, out = set(), []
     for c in cases:
         if c.key not in seen:
